@@ -76,6 +76,10 @@ fn generate(rng: &mut Rng) -> ConnScenario {
     }
     // most clients hang up as soon as they have been told where to go; some take a while
     client.close_on_end_ns = *rng.pick(&[Some(0u64), Some(0), Some(0), Some(secs(1) + OFF_EXTRA / 2), Some(secs(20) + OFF_EXTRA / 2)]);
+    // whatever locale the client reports, the (single, default) table applies; the message may be plain text
+    if rng.chance(1, 3) {
+        client.locale = super::c03::gen_locale(rng);
+    }
     let style = rng.below(5);
     let pol = |rng: &mut Rng| -> KaPolicy {
         match rng.below(12) {
@@ -103,6 +107,11 @@ fn generate(rng: &mut Rng) -> ConnScenario {
             id: 0x04,
             body: Body::KeepAlive { id: KaId::Fixed(rng.next_u64()) },
         });
+    }
+    let mut services = services;
+    if rng.chance(1, 4) {
+        let t = services.localization.messages.get_mut("en").expect("default table");
+        t.insert("disconnect_timeout".into(), (*rng.pick(&["Zeit\u{fc}berschreitung \u{2013} keine Antwort", "timeout \u{2764}", "plain ascii timeout"])).to_string());
     }
     ConnScenario {
         seed: rng.next_u64(),
@@ -187,7 +196,7 @@ fn check_backpressure(sc: &ConnScenario, out: &ConnOutcome, rep: &mut RunReport)
     let Some(first) = kas.first() else { return };
     let held = out.pipe.write_blocked_total_ns;
     // routing takes at least 70 s from Client Information on, the unanswered Keep Alive is due 16 s after it was written
-    let timeout = out.view.packets.iter().find(|p| p.kind == "Disconnect" && is_timeout_disconnect(&p.fields["reason"]));
+    let timeout = out.view.packets.iter().find(|p| p.kind == "Disconnect" && is_timeout_disconnect(sc, &p.fields["reason"]));
     match timeout {
         None => rep.violate("silent_client_is_timed_out", format!("Keep Alive received at {} ns was never echoed and routing takes more than 70 s, but no timeout Disconnect arrived: result {} {} packets {:?}", first.t_ns, out.result, out.result_text, out.view.kinds())),
         Some(d) => {
@@ -205,8 +214,12 @@ fn check_backpressure(sc: &ConnScenario, out: &ConnOutcome, rep: &mut RunReport)
     let _ = sc;
 }
 
-fn is_timeout_disconnect(reason: &Value) -> bool {
-    reason == &json!({"text": "timeout-en"})
+/// The timeout message as configured (one table, "en", reached from any client locale through the default locale).
+fn is_timeout_disconnect(sc: &ConnScenario, reason: &Value) -> bool {
+    match sc.services.localization.messages.get("en").and_then(|t| t.get("disconnect_timeout")) {
+        Some(m) => super::c03::text_matches(reason, m),
+        None => reason == &json!({"text": "timeout-en"}),
+    }
 }
 
 pub fn check(sc: &ConnScenario, out: &ConnOutcome, rep: &mut RunReport) {
@@ -262,7 +275,7 @@ pub fn check(sc: &ConnScenario, out: &ConnOutcome, rep: &mut RunReport) {
                 rep.violate("no_keep_alive_before_configuration", format!("Keep Alive at {} ns, Login Acknowledged at {} ns", p.t_ns, t_ack));
             }
             ticks.push((p.t_ns, false, p.fields["id"].as_u64().unwrap_or(0)));
-        } else if p.kind == "Disconnect" && is_timeout_disconnect(&p.fields["reason"]) {
+        } else if p.kind == "Disconnect" && is_timeout_disconnect(sc, &p.fields["reason"]) {
             ticks.push((p.t_ns, true, 0));
         }
     }
@@ -353,7 +366,7 @@ pub fn check(sc: &ConnScenario, out: &ConnOutcome, rep: &mut RunReport) {
             }
         }
         Some(_) => {
-            if endp.kind != "Disconnect" || is_timeout_disconnect(&endp.fields["reason"]) {
+            if endp.kind != "Disconnect" || is_timeout_disconnect(sc, &endp.fields["reason"]) {
                 rep.violate("correct_transfer_after_waiting", format!("no target chosen, final packet {} {}", endp.kind, endp.fields));
             }
         }
